@@ -1116,9 +1116,9 @@ TEXT ·sealAsm(SB), NOSPLIT, $0-104
  fastCmp:             \
     CMPQ l, $8       \
     JL slowCmp       \
-    MOVQ 0(x), reg3  \
-    XORQ reg3, 0(y)   \
-    ORQ (y),reg1  \
+    MOVQ 0(y), reg3  \  // the received tag is only read: XOR into the register, never into the caller's buffer
+    XORQ 0(x), reg3   \
+    ORQ reg3, reg1  \
     ADDQ $8, x       \
     ADDQ $8, y       \
     SUBQ $8, l       \
@@ -1126,9 +1126,9 @@ TEXT ·sealAsm(SB), NOSPLIT, $0-104
 slowCmp:             \
     CMPQ l, $1       \
     JL cmpDone          \
-    MOVB (x), reg3  \
-    XORB reg3, (y)  \
-    ORB (y), reg2   \
+    MOVB (y), reg3  \
+    XORB (x), reg3  \
+    ORB reg3, reg2   \
     ADDQ $1, x       \
     ADDQ $1, y       \
     SUBQ $1, l       \
